@@ -17,7 +17,7 @@ func init() {
 			if tier == "quick" {
 				return 8000
 			}
-			return 250000
+			return 600000
 		},
 		Rule:        "case = a hostile history (as C01, weighted towards delete/merge/shrink sequences and adversarial user-key layer assignments) in which EVERY persisted version is walked in the store by the independent decoder and every clause of the statement is checked on every reachable node: level = H - depth >= 0, level-0 nodes childless, keys strictly ascending and strictly inside the bounds inherited from the ancestors' neighbouring keys, every key sits at level min(layer,H) (top node holds layer >= H), #link slots = #keys+1, entry-less nodes are single-child pass-throughs, Root.Size = entries reachable; non-trivial = H >= 2 AND produced after >= 1 delete; distinct by root name",
 		Assumptions: []string{"layers come from the independent layer functions (CRC-64/ECMA and divisibility re-implemented) or the user key's assigned layer"},
